@@ -155,7 +155,8 @@ T = {
         "Proved: PrefixStore.translate_key strips / adds exactly the mount prefix (inverse lemmas in both directions), contains / is_dir and five "
         "KeyTranslatingStore forwarders call the sub-store with the translated key; MountPointStore.route_to picks the last matching mount "
         "(loop invariant `no later mount matches`) else the default store; _leads_to_mount / is_dir / contains report the ancestors of a mount "
-        "point as directories. Union listings (listdir / keys of the composite) are explored: 5 mount tables x memory / directory stores.",
+        "point as directories; the routed operations (get_bytes, store, store_metadata, remove, makedir) reach exactly the store route_to "
+        "selects, under the same key, and modify no other mounted store (frame obligation). Union listings (listdir / keys of the composite) are explored: 5 mount tables x memory / directory stores.",
         BOUNDED),
 "C15": ("proof",
         "contract-based deductive verification against interface contracts with an abstract view (own VC generator, z3/cvc5); bounded "
